@@ -26,6 +26,7 @@ import (
 	"tkestack.io/galaxy/pkg/api/galaxy/constant"
 	"tkestack.io/galaxy/pkg/ipam/apis/galaxy/v1alpha1"
 	galaxyfake "tkestack.io/galaxy/pkg/ipam/client/clientset/versioned/fake"
+	galaxyinformers "tkestack.io/galaxy/pkg/ipam/client/informers/externalversions/galaxy/v1alpha1"
 	galaxylisters "tkestack.io/galaxy/pkg/ipam/client/listers/galaxy/v1alpha1"
 	"tkestack.io/galaxy/pkg/ipam/cloudprovider/rpc"
 	ipamcontext "tkestack.io/galaxy/pkg/ipam/context"
@@ -122,6 +123,30 @@ type World struct {
 	Snap map[uint32]schedulerplugin.VerifResyncEntry
 	// Mon is scratch space of the monitors (state they carry from step to step)
 	Mon map[string]interface{}
+	// Admin is the ground truth of the administrator's reservations in force: address -> key of the labelled object
+	Admin map[uint32]string
+	// fipHandlers are the FloatingIP watch handlers the running process registered (crdIpam's add / delete handlers for
+	// hand-made reservations); the harness delivers the events
+	fipHandlers []cache.ResourceEventHandler
+}
+
+// capFIPInformer hands the plugin an informer whose AddEventHandler records the handler instead of starting a watch.
+type capFIPInformer struct {
+	galaxyinformers.FloatingIPInformer
+	w *World
+}
+
+func (c capFIPInformer) Informer() cache.SharedIndexInformer {
+	return &capSharedInformer{c.FloatingIPInformer.Informer(), c.w}
+}
+
+type capSharedInformer struct {
+	cache.SharedIndexInformer
+	w *World
+}
+
+func (c *capSharedInformer) AddEventHandler(h cache.ResourceEventHandler) {
+	c.w.fipHandlers = append(c.w.fipHandlers, h)
 }
 
 // OpInfo is what monitors may want to know about the op just executed.
@@ -139,7 +164,7 @@ func nsIndexer() cache.Indexer {
 
 // NewWorld builds the plugin with the given configuration (Init = ConfigurePool on an empty store).
 func NewWorld(conf Conf, rng *rand.Rand) (*World, error) {
-	w := &World{Conf: conf, Pools: conf.Pools, Rng: rng, Cnt: &Counter{}, nextUID: 1, Voided: map[string]bool{}, Mon: map[string]interface{}{}, Snap: map[uint32]schedulerplugin.VerifResyncEntry{},
+	w := &World{Conf: conf, Pools: conf.Pools, Rng: rng, Cnt: &Counter{}, nextUID: 1, Voided: map[string]bool{}, Admin: map[uint32]string{}, Mon: map[string]interface{}{}, Snap: map[uint32]schedulerplugin.VerifResyncEntry{},
 		Prov:   &Provider{Assigned: map[uint32]string{}},
 		podIdx: nsIndexer(), stsIdx: nsIndexer(), dpIdx: nsIndexer(), poolIdx: nsIndexer()}
 	w.Gate, w.Bomb = &Gate{}, &Bomb{}
@@ -176,6 +201,8 @@ func (w *World) startPlugin() error {
 			Status: corev1.NodeStatus{Addresses: []corev1.NodeAddress{{Type: corev1.NodeInternalIP, Address: IPStr(n.IP)}}}})
 	}
 	ctx.NodeLister = corelisters.NewNodeLister(nodeIdx)
+	w.fipHandlers = nil
+	ctx.FIPInformer = capFIPInformer{ctx.FIPInformer, w}
 	var pools []*floatingip.FloatingIPPool
 	if err := json.Unmarshal([]byte(PoolsJSON(w.Pools)), &pools); err != nil {
 		return fmt.Errorf("configuration rejected: %v", err)
